@@ -88,7 +88,7 @@ def hostile_tokens(rng, g, n):
 
 def gen_case(rng, cid, pool_texts):
     kind = rng.choice(["bytes", "mutdesc", "mutdesc", "longnames", "longnames", "bigrule", "codes", "codes", "flags",
-                       "debug", "longdesc", "manyalts", "bigcost", "manyerrors"])
+                       "debug", "longdesc", "manyalts", "bigcost", "manyerrors", "ambig"])
     L = ["C %d" % cid, "new 0"]
     feats = set()
     amode = rng.choice([0, 1, 2, 2, 2, 3])
@@ -192,6 +192,24 @@ def gen_case(rng, cid, pool_texts):
         L += emit_tokens([code[t] for t in w[:cap]])
         L += ["parse 0 %d h" % (amode if amode != 3 else 2)]
         feats.add("many_recoveries")
+    elif kind == "ambig":
+        # all parses of a^n for heavily ambiguous one-letter grammars whose rules use only some of their symbols
+        # in the translation or pass one child through: the DAG is small, the work must stay small too (a
+        # terminating but exponential construction shows as the watchdog's `hang')
+        menu = [(["S", "a", "S", "S"], None, [0]), (["S", "a", "S", "S"], "q", [0]), (["S", "S", "a"], "p", [0, 2, 1]),
+                (["S", "a", "S"], "r", [1, 0]), (["S", "a"], "m", []), (["a", "S", "a", "a"], "t", [3, 2, 1, 0]),
+                (["S", "S"], None, [1]), (["S", "S"], "c", [0]), (["S", "S", "S"], None, [1]), (["a", "S"], None, [1])]
+        picks = rng.sample(menu, rng.randrange(2, 6))
+        rules = [Rule("S", rhs, an, 1 if an else 0, tr) for rhs, an, tr in picks]
+        rules.append(Rule("S", ["a"], "l", 1, [0]))
+        if rng.random() < 0.7:
+            rules.append(Rule("S", [], "e", 0, []))
+        g = Grammar([("a", 97)], rules)
+        L += emit_config(0, la=rng.choice([0, 1, 2]), one=0 if rng.random() < 0.6 else 1, cost=rng.randrange(2), rec=0)
+        L += emit_define(g, 0, 0)
+        L += emit_tokens([97] * rng.randrange(8, 15))
+        L += ["parse 0 %d h" % (amode if amode != 3 else 2)]
+        feats.add("heavy_ambiguity")
     elif kind == "codes":
         k = rng.randrange(2, 12)
         lay = code_layout(rng)
@@ -276,7 +294,7 @@ def _worker(args):
         cases[cid] = (kind, L, feats)
         lines += L
     exe = build.build(variant)
-    tr = run.run_text(exe, "\n".join(lines) + "\n")
+    tr = run.run_text(exe, "\n".join(lines) + "\n", case_timeout=20)     # every case is tiny: 40 s without output = stuck
     for cid, (kind, L, feats) in cases.items():
         case = tr.get(cid)
         sh.evals += 1
